@@ -515,5 +515,76 @@ theorem step37_found {nm : Range} {h : Nat} {ns : Ns} {as : List AttrOutline} {s
   simp [dispatch, runSeqArms, findArm, patMatches, runBody, runSeq, runCalls, act, lexAct, applyTrans, Common.pos,
     tokenPartRange, hf, Nat.add_right_comm p 1 k, hq]
 
+/-! ### end of input inside the tag -/
+
+omit hok in
+/-- the end-of-input step of a tag state: `emit_raw_without_token_and_eof?` when this is the last
+chunk, then (or otherwise) `break_on_end_of_input`. No tag lexeme is involved. -/
+def eofStep (env : Env κ) (inp : Bytes) (c : Common) (l : LexRegs) (x : Ctx κ) : M κ × Option Signal :=
+  if c.isLast then
+    match (andThen (lexEmitNonTag env inp c l x none c.pos) (lexEmitEof env inp)).2 with
+    | some sig => ((andThen (lexEmitNonTag env inp c l x none c.pos) (lexEmitEof env inp)).1, some sig)
+    | none => breakOnEndOfInput inp (andThen (lexEmitNonTag env inp c l x none c.pos) (lexEmitEof env inp)).1
+  else breakOnEndOfInput inp ⟨c, .lexer l, x⟩
+
+macro "eof_close" : tactic => `(tactic| (
+  simp [dispatch, runSeqArms, findArm, patMatches, runBody, runSeq, runCalls, act, lexAct, eofStep, *]
+  cases il <;> simp
+  generalize andThen _ _ = r
+  rcases r with ⟨m, _ | s⟩ <;> simp))
+
+theorem step31_eof {l : LexRegs} (hb : inp[p]? = none) :
+    stateFn env inp ⟨⟨p, il, 31, en, ca, lsh, cq, ltt⟩, .lexer l, x⟩ = eofStep env inp ⟨p + 1, il, 31, en, ca, lsh, cq, ltt⟩ l x := by
+  step_prelude 31 exp31
+  eof_close
+
+theorem step32_eof {l : LexRegs} (hb : inp[p]? = none) :
+    stateFn env inp ⟨⟨p, il, 32, en, ca, lsh, cq, ltt⟩, .lexer l, x⟩ = eofStep env inp ⟨p + 1, il, 32, en, ca, lsh, cq, ltt⟩ l x := by
+  step_prelude 32 exp32
+  eof_close
+
+theorem step33_eof {l : LexRegs} (hb : inp[p]? = none) :
+    stateFn env inp ⟨⟨p, il, 33, en, ca, lsh, cq, ltt⟩, .lexer l, x⟩ = eofStep env inp ⟨p + 1, il, 33, en, ca, lsh, cq, ltt⟩ l x := by
+  step_prelude 33 exp33
+  eof_close
+
+theorem step34_eof {l : LexRegs} (hb : inp[p]? = none) :
+    stateFn env inp ⟨⟨p, il, 34, en, ca, lsh, cq, ltt⟩, .lexer l, x⟩ = eofStep env inp ⟨p + 1, il, 34, en, ca, lsh, cq, ltt⟩ l x := by
+  step_prelude 34 exp34
+  eof_close
+
+theorem step35_eof {l : LexRegs} (hb : inp[p]? = none) :
+    stateFn env inp ⟨⟨p, il, 35, en, ca, lsh, cq, ltt⟩, .lexer l, x⟩ = eofStep env inp ⟨p + 1, il, 35, en, ca, lsh, cq, ltt⟩ l x := by
+  step_prelude 35 exp35
+  eof_close
+
+theorem step36_eof {l : LexRegs} (hb : inp[p]? = none) :
+    stateFn env inp ⟨⟨p, il, 36, en, ca, lsh, cq, ltt⟩, .lexer l, x⟩ = eofStep env inp ⟨p + 1, il, 36, en, ca, lsh, cq, ltt⟩ l x := by
+  step_prelude 36 (exp36 (trans36 env.tbl))
+  eof_close
+
+theorem step39_eof {l : LexRegs} (hb : inp[p]? = none) :
+    stateFn env inp ⟨⟨p, il, 39, true, ca, lsh, cq, ltt⟩, .lexer l, x⟩ = eofStep env inp ⟨p + 1, il, 39, true, ca, lsh, cq, ltt⟩ l x := by
+  step_prelude 39 exp39
+  eof_close
+
+theorem step38_eof {ct : Option TagOutline} (hf : findByte 34 (inp.drop p) = none) :
+    stateFn env inp ⟨⟨p, il, 38, false, ca, lsh, 34, ltt⟩, .lexer ⟨ls, tps, ct, cnt, cattr, fd⟩, x⟩
+      = eofStep env inp ⟨p + 1 + (inp.drop p).length, il, 38, true, ca, lsh, 34, ltt⟩ ⟨ls, p, ct, cnt, cattr, fd⟩ x := by
+  step_prelude 38 (expQuoted 34)
+  simp [dispatch, runSeqArms, findArm, patMatches, runBody, runSeq, runCalls, act, lexAct, eofStep, Common.pos, hf]
+  cases il <;> simp
+  generalize andThen _ _ = r
+  rcases r with ⟨m, _ | s⟩ <;> simp
+
+theorem step37_eof {ct : Option TagOutline} (hf : findByte 39 (inp.drop p) = none) :
+    stateFn env inp ⟨⟨p, il, 37, false, ca, lsh, 39, ltt⟩, .lexer ⟨ls, tps, ct, cnt, cattr, fd⟩, x⟩
+      = eofStep env inp ⟨p + 1 + (inp.drop p).length, il, 37, true, ca, lsh, 39, ltt⟩ ⟨ls, p, ct, cnt, cattr, fd⟩ x := by
+  step_prelude 37 (expQuoted 39)
+  simp [dispatch, runSeqArms, findArm, patMatches, runBody, runSeq, runCalls, act, lexAct, eofStep, Common.pos, hf]
+  cases il <;> simp
+  generalize andThen _ _ = r
+  rcases r with ⟨m, _ | s⟩ <;> simp
+
 end
 end LolHtml.Model.TagStates
